@@ -905,7 +905,14 @@ func AdoptSession(p Persistence, c *Config) (client *Client, warn []error, fatal
 	if n := len(publishExactlyOnceKeys) + len(publishReleaseKeys); c.ExactlyOnceMax >= 0 && n > c.ExactlyOnceMax {
 		return nil, warn, fmt.Errorf("mqtt: %d ExactlyOnceMax is less than the %d pending in session", c.ExactlyOnceMax, n)
 	}
-	client = newClient(&ruggedPersistence{Persistence: p}, c)
+	rugged := &ruggedPersistence{Persistence: p}
+	// continue the storage sequence, such that new records order after
+	for _, n := range storeOrderPerKey {
+		if n > rugged.seqNo.Load() {
+			rugged.seqNo.Store(n)
+		}
+	}
+	client = newClient(rugged, c)
 
 	// check for outbound publish pending confirmation
 	if keys = publishAtLeastOnceKeys; len(keys) != 0 {
